@@ -439,4 +439,281 @@ theorem mapsOK_init (seg : Name → Content) : MapsOK seg {} := by
 
 end Cache
 
+/-! ## Part A: search around an abstract engine -/
+
+section Search
+
+/-! ### `eraseDups` -/
+
+theorem nodup_eraseDups {α} [BEq α] [LawfulBEq α] : ∀ (n : Nat) (l : List α), l.length ≤ n → l.eraseDups.Nodup := by
+  intro n
+  induction n with
+  | zero =>
+    intro l hl
+    have : l = [] := List.length_eq_zero_iff.1 (Nat.le_zero.1 hl)
+    subst this; simp
+  | succ n ih =>
+    intro l hl
+    cases l with
+    | nil => simp
+    | cons a t =>
+      rw [List.eraseDups_cons, List.nodup_cons]
+      constructor
+      · intro hmem
+        rw [List.mem_eraseDups, List.mem_filter] at hmem
+        simp at hmem
+      · apply ih
+        have := List.length_filter_le (fun b => !b == a) t
+        simp only [List.length_cons] at hl
+        omega
+
+theorem nodup_eraseDups' {α} [BEq α] [LawfulBEq α] (l : List α) : l.eraseDups.Nodup :=
+  nodup_eraseDups l.length l (Nat.le_refl _)
+
+theorem eraseDups_of_nodup {α} [BEq α] [LawfulBEq α] (l : List α) (h : l.Nodup) : l.eraseDups = l := by
+  induction l with
+  | nil => simp
+  | cons a t ih =>
+    rw [List.nodup_cons] at h
+    rw [List.eraseDups_cons]
+    have : t.filter (fun b => !b == a) = t := by
+      rw [List.filter_eq_self]
+      intro b hb
+      have : b ≠ a := fun hba => h.1 (hba ▸ hb)
+      simpa using this
+    rw [this, ih h.2]
+
+theorem length_eraseDups_le {α} [BEq α] [LawfulBEq α] (l : List α) : l.eraseDups.length ≤ l.length :=
+  (nodup_eraseDups' l).length_le_of_subset (fun _ h => List.mem_eraseDups.1 h)
+
+/-- two duplicate-free lists with the same members have the same length -/
+theorem length_eq_of_nodup_of_mem_iff {α} {l₁ l₂ : List α} (h₁ : l₁.Nodup) (h₂ : l₂.Nodup)
+    (h : ∀ a, a ∈ l₁ ↔ a ∈ l₂) : l₁.length = l₂.length :=
+  Nat.le_antisymm (h₁.length_le_of_subset (fun a ha => (h a).1 ha))
+    (h₂.length_le_of_subset (fun a ha => (h a).2 ha))
+
+/-- collapsing duplicates removes no more from a part than from the whole -/
+theorem dupcount {α β} [BEq β] [LawfulBEq β] (A : List α) (p : α → Bool) (g : α → β) :
+    (A.map g).eraseDups.length + (A.filter p).length ≤
+      ((A.filter p).map g).eraseDups.length + A.length := by
+  have hlen := (filter_partition_perm p A).length_eq
+  simp only [List.length_append] at hlen
+  have hsub : (A.map g).eraseDups ⊆ ((A.filter p).map g).eraseDups ++ (A.filter (fun a => !p a)).map g := by
+    intro b hb
+    rw [List.mem_eraseDups, List.mem_map] at hb
+    obtain ⟨a, ha, rfl⟩ := hb
+    rw [List.mem_append, List.mem_eraseDups]
+    by_cases hp : p a
+    · exact Or.inl (List.mem_map.2 ⟨a, List.mem_filter.2 ⟨ha, hp⟩, rfl⟩)
+    · exact Or.inr (List.mem_map.2 ⟨a, List.mem_filter.2 ⟨ha, by simpa using hp⟩, rfl⟩)
+  have := (nodup_eraseDups' (A.map g)).length_le_of_subset hsub
+  simp only [List.length_append, List.length_map] at this
+  omega
+
+/-! ### the run-time checker, from propositions -/
+
+theorem validTopK_intro (metric k : Nat) (M R : List VHit)
+    (hsub : ∀ r ∈ R, r ∈ M) (hnd : R.Nodup)
+    (hex : ∀ r ∈ R, ∀ m ∈ M, m ∉ R → vbetter metric m.score r.score = false)
+    (hk : R.length ≤ k)
+    (hsize : min k M.length ≤ R.length + (M.length - M.eraseDups.length)) :
+    validTopK metric k M R = true := by
+  unfold validTopK
+  simp only [eraseDups_of_nodup R hnd]
+  simp only [Bool.and_eq_true, List.all_eq_true, List.contains_iff_mem, beq_self_eq_true,
+    decide_eq_true_eq, Bool.or_true, and_true, List.mem_filter,
+    Bool.not_eq_eq_eq_not, Bool.not_true, ge_iff_le]
+  refine ⟨⟨⟨hsub, ?_⟩, hk⟩, hsize⟩
+  intro r hr m hm
+  exact hex r hr m hm.1 (by simpa using hm.2)
+
+/-! ### the id table -/
+
+theorem lookupDoc_some_mem : ∀ (m : VMap) (id d : Nat), lookupDoc m id = some d → (id, d) ∈ m := by
+  intro m
+  induction m with
+  | nil => intro id d h; simp [lookupDoc] at h
+  | cons a r ih =>
+    intro id d h
+    obtain ⟨i, d'⟩ := a
+    simp only [lookupDoc] at h
+    split at h
+    · rename_i hi
+      simp only [Option.some.injEq] at h
+      subst hi; subst h; exact List.mem_cons_self
+    · exact List.mem_cons_of_mem _ (ih id d h)
+
+theorem lookupDoc_of_mem : ∀ (m : VMap), (m.map (·.1)).Nodup → ∀ (id d : Nat), (id, d) ∈ m →
+    lookupDoc m id = some d := by
+  intro m
+  induction m with
+  | nil => intro _ id d h; cases h
+  | cons a r ih =>
+    intro hnd id d h
+    obtain ⟨i, d'⟩ := a
+    rw [List.map_cons, List.nodup_cons] at hnd
+    simp only [lookupDoc]
+    cases h with
+    | head => simp
+    | tail _ h =>
+      have : i ≠ id := fun hi => hnd.1 (List.mem_map.2 ⟨(id, d), h, hi.symm⟩)
+      simp only [this, if_false]
+      exact ih hnd.2 id d h
+
+theorem vecDocIDMap_keys (c : Content) : (vecDocIDMap c).map (·.1) = c.map (·.1) := by
+  simp [vecDocIDMap, List.map_map, Function.comp_def]
+
+theorem mem_vecDocIDMap (c : Content) (id d : Nat) :
+    (id, d) ∈ vecDocIDMap c ↔ ∃ v, (id, d, v) ∈ c := by
+  simp only [vecDocIDMap, List.mem_map, Prod.mk.injEq]
+  constructor
+  · rintro ⟨⟨i, d', v⟩, h, rfl, rfl⟩; exact ⟨v, h⟩
+  · rintro ⟨v, h⟩; exact ⟨(id, d, v), h, rfl, rfl⟩
+
+/-- with distinct ids, an id determines its entry -/
+theorem entry_of_id (c : Content) (hnd : (c.map (·.1)).Nodup) {t t' : Nat × Nat × List Int}
+    (ht : t ∈ c) (ht' : t' ∈ c) (h : t.1 = t'.1) : t = t' :=
+  unique_of_nodup_map (·.1) hnd ht ht' h
+
+theorem lookupDoc_entry (c : Content) (hnd : (c.map (·.1)).Nodup) (t : Nat × Nat × List Int)
+    (ht : t ∈ c) : lookupDoc (vecDocIDMap c) t.1 = some t.2.1 := by
+  apply lookupDoc_of_mem _ (by rw [vecDocIDMap_keys]; exact hnd)
+  exact (mem_vecDocIDMap c _ _).2 ⟨t.2.2, ht⟩
+
+theorem mem_vecIDsToExclude (c : Content) (hnd : (c.map (·.1)).Nodup) (ex : List Nat)
+    (t : Nat × Nat × List Int) (ht : t ∈ c) :
+    t.1 ∈ vecIDsToExclude (vecDocIDMap c) ex ↔ t.2.1 ∈ ex := by
+  simp only [vecIDsToExclude, List.mem_map, List.mem_filter, List.contains_iff_mem]
+  constructor
+  · rintro ⟨⟨i, d⟩, ⟨hm, hd⟩, hi⟩
+    simp only at hi hd; subst hi
+    obtain ⟨v, hv⟩ := (mem_vecDocIDMap c _ _).1 hm
+    have := entry_of_id c hnd hv ht rfl
+    rw [← this]; exact hd
+  · intro hd
+    exact ⟨(t.1, t.2.1), ⟨(mem_vecDocIDMap c _ _).2 ⟨t.2.2, ht⟩, hd⟩, rfl⟩
+
+theorem mem_docVecIDs_flatMap (c : Content) (hnd : (c.map (·.1)).Nodup) (el : List Nat)
+    (t : Nat × Nat × List Int) (ht : t ∈ c) :
+    t.1 ∈ el.flatMap (docVecIDs (vecDocIDMap c)) ↔ t.2.1 ∈ el := by
+  simp only [List.mem_flatMap, docVecIDs, List.mem_map, List.mem_filter, beq_iff_eq]
+  constructor
+  · rintro ⟨d, hd, ⟨i, d'⟩, ⟨hm, hd'⟩, hi⟩
+    simp only at hi hd'; subst hi; subst hd'
+    obtain ⟨v, hv⟩ := (mem_vecDocIDMap c _ _).1 hm
+    have := entry_of_id c hnd hv ht rfl
+    rw [← this]; exact hd
+  · intro hd
+    exact ⟨t.2.1, hd, (t.1, t.2.1), ⟨(mem_vecDocIDMap c _ _).2 ⟨t.2.2, ht⟩, rfl⟩, rfl⟩
+
+/-! ### from the engine contract to the checker -/
+
+/-- the (doc, score) code of an entry -/
+def hitOf (metric : Nat) (q : List Int) (t : Nat × Nat × List Int) : VHit :=
+  { doc := t.2.1, score := vscore metric q t.2.2 }
+
+theorem admissible_eq (ix : VIndex) (opt : Nat) (q : List Int) (ex elig : Option (List Nat)) :
+    admissible (ix.toVecIx opt) q ex elig =
+      (ix.content.filter (fun t =>
+        (match ex with | none => true | some l => !l.contains t.2.1) &&
+        (match elig with | none => true | some l => l.contains t.2.1))).map (hitOf ix.metric q) := by
+  simp only [admissible, VIndex.toVecIx, List.filter_map, List.map_map]
+  rfl
+
+theorem mem_addIDs (m : VMap) (res : List (Nat × Int)) (h : VHit) :
+    h ∈ addIDsToPostingsList m res ↔ ∃ p ∈ res, ∃ d, lookupDoc m p.1 = some d ∧ h = ⟨d, p.2⟩ := by
+  simp only [addIDsToPostingsList, List.mem_eraseDups, List.mem_filterMap, Option.map_eq_some_iff]
+  constructor
+  · rintro ⟨p, hp, d, hd, rfl⟩; exact ⟨p, hp, d, hd, rfl⟩
+  · rintro ⟨p, hp, d, hd, rfl⟩; exact ⟨p, hp, d, hd, rfl⟩
+
+theorem addIDs_length_le (m : VMap) (res : List (Nat × Int)) :
+    (addIDsToPostingsList m res).length ≤ res.length :=
+  Nat.le_trans (length_eraseDups_le _) (List.length_filterMap_le _ _)
+
+theorem addIDs_nodup (m : VMap) (res : List (Nat × Int)) : (addIDsToPostingsList m res).Nodup :=
+  nodup_eraseDups' _
+
+/-- with the complete table and a sound engine answer, the postings are exactly the codes
+    of the returned entries -/
+theorem mem_addIDs_complete (c : Content) (hnd : (c.map (·.1)).Nodup) (metric : Nat) (q : List Int)
+    (adm : Nat → Bool) (res : List (Nat × Int))
+    (hs : ∀ p ∈ res, ∃ d v, (p.1, d, v) ∈ c ∧ adm p.1 = true ∧ p.2 = vscore metric q v) (h : VHit) :
+    h ∈ addIDsToPostingsList (vecDocIDMap c) res ↔
+      ∃ t ∈ c, t.1 ∈ res.map (·.1) ∧ adm t.1 = true ∧ h = hitOf metric q t := by
+  rw [mem_addIDs]
+  constructor
+  · rintro ⟨p, hp, d, hd, rfl⟩
+    obtain ⟨d', v, hc, ha, hsc⟩ := hs p hp
+    have := lookupDoc_entry c hnd _ hc
+    simp only at this
+    rw [this] at hd
+    simp only [Option.some.injEq] at hd
+    subst hd
+    exact ⟨_, hc, List.mem_map.2 ⟨p, hp, rfl⟩, ha, by simp [hitOf, hsc]⟩
+  · rintro ⟨t, ht, hid, _, rfl⟩
+    obtain ⟨p, hp, hpt⟩ := List.mem_map.1 hid
+    obtain ⟨d', v, hc, _, hsc⟩ := hs p hp
+    have := entry_of_id c hnd hc ht hpt
+    subst this
+    exact ⟨p, hp, d', lookupDoc_entry c hnd _ hc, by simp [hitOf, hsc]⟩
+
+theorem validTopK_of_exactSel (c : Content) (hnd : (c.map (·.1)).Nodup) (metric : Nat) (q : List Int)
+    (k : Nat) (adm : Nat → Bool) (res : List (Nat × Int)) (hE : ExactSel c metric q k adm res) :
+    validTopK metric k ((c.filter (fun t => adm t.1)).map (hitOf metric q))
+      (addIDsToPostingsList (vecDocIDMap c) res) = true := by
+  have hmem := mem_addIDs_complete c hnd metric q adm res hE.sound
+  apply validTopK_intro
+  · intro r hr
+    obtain ⟨t, ht, _, ha, rfl⟩ := (hmem r).1 hr
+    exact List.mem_map.2 ⟨t, List.mem_filter.2 ⟨ht, ha⟩, rfl⟩
+  · exact addIDs_nodup _ _
+  · intro r hr m hm hnot
+    obtain ⟨t, ht, rfl⟩ := List.mem_map.1 hm
+    obtain ⟨htc, hta⟩ := List.mem_filter.1 ht
+    have hout : t.1 ∉ res.map (·.1) := fun hin => hnot ((hmem _).2 ⟨t, htc, hin, hta, rfl⟩)
+    obtain ⟨p, hp, d, _, rfl⟩ := (mem_addIDs _ _ _).1 hr
+    exact hE.exact p hp t htc hta hout
+  · exact Nat.le_trans (addIDs_length_le _ _) hE.atMost
+  · -- size
+    let A := c.filter (fun t => adm t.1)
+    let sel : (Nat × Nat × List Int) → Bool := fun t => (res.map (·.1)).contains t.1
+    have hAnd : (A.map (·.1)).Nodup := hnd.sublist ((List.filter_sublist).map _)
+    have hI : (A.filter sel).length = res.length := by
+      have h1 : ((A.filter sel).map (·.1)).Nodup := hAnd.sublist ((List.filter_sublist).map _)
+      have := length_eq_of_nodup_of_mem_iff h1 hE.nodup (by
+        intro id
+        constructor
+        · intro h
+          obtain ⟨t, ht, rfl⟩ := List.mem_map.1 h
+          simpa [sel] using (List.mem_filter.1 ht).2
+        · intro h
+          obtain ⟨p, hp, rfl⟩ := List.mem_map.1 h
+          obtain ⟨d, v, hc, ha, _⟩ := hE.sound p hp
+          refine List.mem_map.2 ⟨(p.1, d, v), List.mem_filter.2 ⟨List.mem_filter.2 ⟨hc, ha⟩, ?_⟩, rfl⟩
+          simp only [sel, List.contains_iff_mem]
+          exact List.mem_map.2 ⟨p, hp, rfl⟩)
+      simpa using this
+    have hH : (addIDsToPostingsList (vecDocIDMap c) res).length =
+        ((A.filter sel).map (hitOf metric q)).eraseDups.length := by
+      apply length_eq_of_nodup_of_mem_iff (addIDs_nodup _ _) (nodup_eraseDups' _)
+      intro h
+      rw [hmem, List.mem_eraseDups, List.mem_map]
+      constructor
+      · rintro ⟨t, ht, hid, ha, rfl⟩
+        refine ⟨t, List.mem_filter.2 ⟨List.mem_filter.2 ⟨ht, ha⟩, ?_⟩, rfl⟩
+        simpa [sel] using hid
+      · rintro ⟨t, ht, rfl⟩
+        obtain ⟨htA, hs⟩ := List.mem_filter.1 ht
+        obtain ⟨htc, hta⟩ := List.mem_filter.1 htA
+        exact ⟨t, htc, by simpa [sel] using hs, hta, rfl⟩
+    have hd := dupcount A sel (hitOf metric q)
+    have hcount := hE.count
+    have hle := length_eraseDups_le (A.map (hitOf metric q))
+    simp only [A, List.length_map] at hd hH hI hle hcount ⊢
+    rw [hH]
+    omega
+
+end Search
+
 end Zap.VecL
